@@ -27,6 +27,18 @@ type PropConfig struct {
 type Baseline struct {
 	Property    string   `json:"property"`
 	Obligations []string `json:"obligations"`
+	// property-level obligations that did NOT discharge with margin when the baseline was
+	// written (listed so that a NEW failing instance of a baselined clause - e.g. the same
+	// postcondition at a return statement added by a change - is told apart from them)
+	Undecided []string `json:"undecided,omitempty"`
+}
+
+// stemOf strips the instance suffix (#k: k-th return point / occurrence) of an obligation id.
+func stemOf(id string) string {
+	if i := strings.LastIndex(id, "#"); i >= 0 {
+		return id[:i]
+	}
+	return id
 }
 
 type Finding struct {
@@ -141,8 +153,17 @@ func cmdCheck(args []string) int {
 	basePath := filepath.Join("/verif/baseline", *prop+".json")
 	haveBase := loadJSON(basePath, &base) == nil
 	inBase := map[string]bool{}
+	stemInBase := map[string]bool{}
+	baseUndecided := map[string]bool{}
 	for _, id := range base.Obligations {
 		inBase[id] = true
+		stemInBase[stemOf(id)] = true
+	}
+	for _, id := range base.Undecided {
+		baseUndecided[id] = true
+	}
+	regression := func(id string) bool {
+		return inBase[id] || (stemInBase[stemOf(id)] && !baseUndecided[id])
 	}
 	// verify (symbolic execution is sequential per function; solving is parallel)
 	results := make([]*FnResult, len(targets))
@@ -172,7 +193,7 @@ func cmdCheck(args []string) int {
 			// from scratch (candidate invariants included) with generous time limits
 			retry := false
 			for _, o := range r.Obls {
-				if o.candID < 0 && o.Kind != "vacuity" && o.Result.Verdict != "unsat" && o.Result.Verdict != "skipped" && (inBase[o.ID] || o.Level == "aux" || *writeBase) {
+				if o.candID < 0 && o.Kind != "vacuity" && o.Result.Verdict != "unsat" && o.Result.Verdict != "skipped" && (regression(o.ID) || o.Level == "aux" || *writeBase) {
 					retry = true
 				}
 			}
@@ -289,6 +310,7 @@ func cmdCheck(args []string) int {
 	var outs []oblOut
 	os.MkdirAll("/verif/replay/"+*prop, 0o755)
 	propLevelIDs := []string{}
+	var failedIDs []string
 	for i := range rows {
 		rw := &rows[i]
 		o := rw.o
@@ -301,6 +323,8 @@ func cmdCheck(args []string) int {
 		if good && (o.Result.Secs <= 20 || o.Result.Cached) {
 			// the baseline only lists obligations that discharge with margin
 			propLevelIDs = append(propLevelIDs, o.ID)
+		} else if good {
+			failedIDs = append(failedIDs, o.ID) // proved, but without margin: not claimed
 		}
 		if kf, isKnown := known[o.ID]; isKnown {
 			if !good {
@@ -318,7 +342,10 @@ func cmdCheck(args []string) int {
 			}
 			continue
 		}
-		if !haveBase || inBase[o.ID] {
+		failedIDs = append(failedIDs, o.ID)
+		// a failing instance counts as a regression when it was proved on the pinned tree, or when
+		// it is a new instance (new return point, new occurrence) of a clause that was
+		if !haveBase || regression(o.ID) {
 			violations++
 			// one VIOLATION line per function; the replay file lists every failed obligation
 			violByFn[rw.r] = append(violByFn[rw.r], rw.o)
@@ -361,7 +388,8 @@ func cmdCheck(args []string) int {
 	}
 	if *writeBase {
 		sort.Strings(propLevelIDs)
-		b, _ := json.MarshalIndent(Baseline{Property: *prop, Obligations: propLevelIDs}, "", " ")
+		sort.Strings(failedIDs)
+		b, _ := json.MarshalIndent(Baseline{Property: *prop, Obligations: propLevelIDs, Undecided: failedIDs}, "", " ")
 		os.MkdirAll("/verif/baseline", 0o755)
 		os.WriteFile(basePath, append(b, '\n'), 0o644)
 		fmt.Println("baseline written:", basePath, len(propLevelIDs), "obligations")
